@@ -331,7 +331,9 @@ func (nfc *NfcSession) ReadFile(fileId uint16) (fileData []byte, err error) {
 		}
 
 		totalBytes = int(tmpTlvLength)
-		totalBytes += 4 - tmpBuf.Len()
+		// NB add the tag/length bytes, based on what was actually returned (a file shorter
+		//    than 4 bytes returns fewer header bytes)
+		totalBytes += len(fileHeader) - tmpBuf.Len()
 	}
 
 	// read remainder of file
@@ -384,12 +386,13 @@ func (nfc *NfcSession) ReadFile(fileId uint16) (fileData []byte, err error) {
 				break
 			}
 		}
+	}
 
-		fileData = bytes.Clone(fileBuf.Bytes())
+	// NB the header read may already hold the complete file (files of up to 4 bytes)
+	fileData = bytes.Clone(fileBuf.Bytes())
 
-		if len(fileData) != totalBytes {
-			return nil, fmt.Errorf("[ReadFile] Data read differs to expected length (exp:%d, act:%d)", totalBytes, len(fileData))
-		}
+	if len(fileData) != totalBytes {
+		return nil, fmt.Errorf("[ReadFile] Data read differs to expected length (exp:%d, act:%d)", totalBytes, len(fileData))
 	}
 
 	slog.Debug("ReadFile", "fileId", fileId, "data", utils.BytesToHex(fileData))
